@@ -11,12 +11,16 @@ type FamilyNode struct {
 	cachedHusband, cachedWife bool
 	husband                   *HusbandNode
 	wife                      *WifeNode
+
+	// The cached values above are only valid while these are the current
+	// cache generation, see invalidateCaches.
+	husbandGeneration, wifeGeneration int64
 }
 
 func newFamilyNode(document *Document, pointer string, children ...Node) *FamilyNode {
 	return &FamilyNode{
 		newSimpleDocumentNode(document, TagFamily, "", pointer, children...),
-		false, false, nil, nil,
+		false, false, nil, nil, 0, 0,
 	}
 }
 
@@ -26,13 +30,15 @@ func (node *FamilyNode) Husband() (husband *HusbandNode) {
 		return nil
 	}
 
-	if node.cachedHusband {
+	generation := currentCacheGeneration()
+	if node.cachedHusband && node.husbandGeneration == generation {
 		return node.husband
 	}
 
 	defer func() {
 		node.husband = husband
 		node.cachedHusband = true
+		node.husbandGeneration = generation
 	}()
 
 	possibleHusband := First(NodesWithTag(node, TagHusband))
@@ -50,13 +56,15 @@ func (node *FamilyNode) Wife() (wife *WifeNode) {
 		return nil
 	}
 
-	if node.cachedWife {
+	generation := currentCacheGeneration()
+	if node.cachedWife && node.wifeGeneration == generation {
 		return node.wife
 	}
 
 	defer func() {
 		node.wife = wife
 		node.cachedWife = true
+		node.wifeGeneration = generation
 	}()
 
 	possibleWife := First(NodesWithTag(node, TagWife))
@@ -154,6 +162,7 @@ func (node *FamilyNode) SetHusband(individual *IndividualNode) *FamilyNode {
 		DeleteNodesWithTag(node, TagHusband)
 		node.husband = nil
 		node.cachedHusband = true
+		node.husbandGeneration = currentCacheGeneration()
 		return node
 	}
 	
@@ -180,6 +189,7 @@ func (node *FamilyNode) SetWife(individual *IndividualNode) *FamilyNode {
 		DeleteNodesWithTag(node, TagWife)
 		node.wife = nil
 		node.cachedWife = true
+		node.wifeGeneration = currentCacheGeneration()
 		return node
 	}
 
